@@ -12,7 +12,7 @@ META = dict(
 
 
 def jobs(tier):
-    return hist.jobs_for(PROPS, hist.standard_plans(tier)) + extra_jobs(tier)
+    return hist.jobs_for(PROPS, hist.standard_plans(tier, borrow_limit_orders=False)) + extra_jobs(tier)
 
 
 def extra_jobs(tier):
